@@ -1,21 +1,90 @@
-(* C09 — periodic and Bloch domains match their supercells.  Model: model/Yee.v ghost reads; lemmas: proofs/Yee_tile.v *)
-From Coq Require Import List Arith.
-From FV Require Import base.Scalar base.Cplx model.Yee proofs.Yee_tile.
+(* C09 — periodic and Bloch domains match their supercells.  Model: model/Yee.v; proofs: proofs/Yee_tile.v (1-D ghost reads),
+   proofs/Yee_tile3.v (3-D lift through curls, updates, masks, sources; induction over steps). *)
+From Coq Require Import List Arith QArith Qcanon.
+From FV Require Import base.Scalar base.Cplx model.Yee proofs.Yee_steps proofs.Yee_tile proofs.Yee_tile3.
+Import ListNotations.
 
-(* PARTIAL: the two ghost-read lemmas below are the only places where an N-cell domain and its m-fold supercell differ in the
-   model (every other operation of the step is cell-local): reading the forward / backward neighbour in the tiled array
-   F (q*N + r) = phi^q * f r, on m*N cells with ghost factors phi^m / psi^m, gives phi^q times the read in one period with
-   ghost factors phi / psi (psi * phi = 1: periodic 1/1, Bloch phase/conj phase).  The lift to the full 3-D forward step is
-   not yet a Coq theorem; it is checked by correspondence and by the implementation predicate. *)
-Theorem C09_forward_read_tiles_partial : forall (K : Fld) (N m : nat) (phi : C K) (f : nat -> C K), (0 < N)%nat ->
+(* Main theorem.  sc: any PML-free scene of the model (any halo kind per axis, widths, iso/diagonal materials, both
+   conductivities, PEC/PMC masks, source terms).  Tscene: its mx x my x mz supercell - repeated materials / widths / masks,
+   ghost factors hi^m and lo^m, source terms tiled with the per-copy phase.  Per axis either m = 1 (nothing assumed about that
+   axis: walls, PEC, PMC, ...) or lo * hi = 1 (periodic: 1 * 1; Bloch: conj(phase) * phase with |phase| = 1) and the first and
+   last cell widths of the period agree (true on uniform grids).  `tiles S s`: on every cell of the big box the fields of S are
+   the fields of s of cell (i mod Nx, j mod Ny, k mod Nz) times hix^(i/Nx) * hiy^(j/Ny) * hiz^(k/Nz), and the step counters
+   agree.  The relation is preserved by any number of forward steps. *)
+Theorem C09_supercell_forward : forall (K : Fld) (sc : scene K) (mx my mz : nat),
+  (0 < nx K sc)%nat -> (0 < ny K sc)%nat -> (0 < nz K sc)%nat ->
+  (mx = 1%nat \/ cmul (lox K sc) (hix K sc) = c1) ->
+  (my = 1%nat \/ cmul (loy K sc) (hiy K sc) = c1) ->
+  (mz = 1%nat \/ cmul (loz K sc) (hiz K sc) = c1) ->
+  (mx = 1%nat \/ wx K sc (nx K sc - 1)%nat = wx K sc O) ->
+  (my = 1%nat \/ wy K sc (ny K sc - 1)%nat = wy K sc O) ->
+  (mz = 1%nat \/ wz K sc (nz K sc - 1)%nat = wz K sc O) ->
+  pmls K sc = [] ->
+  forall n S s, tiles K sc mx my mz S s ->
+    tiles K sc mx my mz (iterT K (Tscene K sc mx my mz) n S) (iterT K sc n s).
+Proof. exact forward_tiles_n. Qed.
+Print Assumptions C09_supercell_forward.
+
+(* the two 1-D ingredients (kept as separate statements: they are the only non-local part of the step) *)
+Theorem C09_forward_read_tiles : forall (K : Fld) (N m : nat) (phi : C K) (f : nat -> C K), (0 < N)%nat ->
   forall q r, (q < m)%nat -> (r < N)%nat ->
   nxt K (m * N) (cpow K phi m) (tiled K N phi f) (q * N + r) = cmul (cpow K phi q) (nxt K N phi f r).
 Proof. exact nxt_tiled. Qed.
-Print Assumptions C09_forward_read_tiles_partial.
+Print Assumptions C09_forward_read_tiles.
 
-Theorem C09_backward_read_tiles_partial : forall (K : Fld) (N m : nat) (phi : C K) (f : nat -> C K), (0 < N)%nat ->
+Theorem C09_backward_read_tiles : forall (K : Fld) (N m : nat) (phi : C K) (f : nat -> C K), (0 < N)%nat ->
   forall psi, cmul psi phi = c1 ->
   forall q r, (q < m)%nat -> (r < N)%nat ->
   prv K (m * N) (cpow K psi m) (tiled K N phi f) (q * N + r) = cmul (cpow K phi q) (prv K N psi f r).
 Proof. exact prv_tiled. Qed.
-Print Assumptions C09_backward_read_tiles_partial.
+Print Assumptions C09_backward_read_tiles.
+
+(* ---- non-vacuity: a 2x3x2 scene, Bloch along x with phase (3/5, 4/5), periodic along y, PEC-type zero halo along z,
+        tiled 3 x 2 x 1; the initial supercell state is the tiled unit-cell state ---- *)
+Definition one3 : R3 QcF := fun _ _ _ => 1%Qc.
+Definition zero3 : R3 QcF := fun _ _ _ => 0%Qc.
+Definition ex_scene : scene QcF :=
+  mkScene QcF 2 3 2 (q 3 5, q 4 5) (1%Qc, 0%Qc) (0%Qc, 0%Qc) (q 3 5, q (-4) 5) (1%Qc, 0%Qc) (0%Qc, 0%Qc)
+    (fun _ => 1%Qc) (fun _ => 1%Qc) (fun i => match i with O => 1%Qc | _ => q 3 2 end) 1%Qc
+    (mkM one3 one3 one3) (mkM one3 one3 one3) (mkM zero3 zero3 zero3) (mkM zero3 zero3 zero3)
+    (q 377 1) (q 1 2) (mkM one3 one3 one3) (mkM one3 one3 one3) []
+    (fun _ => vzero QcF) (fun _ => vzero QcF).
+Definition ex_state : state QcF :=
+  mkSt 0 (mkV (K:=QcF) (fun i j k => (q (Z.of_nat (i + 2 * j)) 4, q (Z.of_nat k) 2)) (fun i j k => (1%Qc, 0%Qc)) (fun i j k => (0%Qc, q (Z.of_nat j) 1)))
+         (mkV (K:=QcF) (fun i j k => (q (Z.of_nat k) 1, 0%Qc)) (fun i j k => (q (Z.of_nat i) 1, 1%Qc)) (fun i j k => (0%Qc, 0%Qc))) [] [].
+Example C09_nonvacuous :
+  (3%nat = 1%nat \/ cmul (lox QcF ex_scene) (hix QcF ex_scene) = c1) /\
+  (2%nat = 1%nat \/ cmul (loy QcF ex_scene) (hiy QcF ex_scene) = c1) /\
+  (1%nat = 1%nat \/ cmul (loz QcF ex_scene) (hiz QcF ex_scene) = c1) /\
+  tiles QcF ex_scene 3 2 1 (mkSt 0 (TV QcF ex_scene (fE ex_state)) (TV QcF ex_scene (fH ex_state)) [] []) ex_state.
+Proof.
+  split; [right; apply c_eq; apply Qc_is_canon; vm_compute; reflexivity|]. split; [right; apply c_eq; apply Qc_is_canon; vm_compute; reflexivity|].
+  split; [left; reflexivity|]. split; [apply veqB_refl|]. split; [apply veqB_refl | reflexivity].
+Qed.
+
+(* ---- the width hypothesis is needed: the source's dual width of cell 0 is w0 (prev_widths = concat(w[:1], w[:-1]) in
+        _metric_scale), not the width across the periodic seam (w0 + w_{N-1})/2.  With widths [1; 2] along a periodic x axis the
+        2-fold supercell does NOT evolve like the tiled unit cell (witness by computation; replayed on the implementation by the
+        C09 check, known finding `nonuniform-seam-width-mismatch`). ---- *)
+Definition seam_scene : scene QcF :=
+  mkScene QcF 2 1 1 (1%Qc, 0%Qc) (0%Qc, 0%Qc) (0%Qc, 0%Qc) (1%Qc, 0%Qc) (0%Qc, 0%Qc) (0%Qc, 0%Qc)
+    (fun i => match i with O => 1%Qc | _ => q 2 1 end) (fun _ => 1%Qc) (fun _ => 1%Qc) 1%Qc
+    (mkM one3 one3 one3) (mkM one3 one3 one3) (mkM zero3 zero3 zero3) (mkM zero3 zero3 zero3)
+    (q 377 1) (q 1 2) (mkM one3 one3 one3) (mkM one3 one3 one3) []
+    (fun _ => vzero QcF) (fun _ => vzero QcF).
+Definition seam_state : state QcF :=
+  mkSt 0 (vzero QcF) (mkV (K:=QcF) (fun _ _ _ => (0%Qc, 0%Qc)) (fun _ _ _ => (0%Qc, 0%Qc)) (fun i _ _ => (q (Z.of_nat i) 1, 0%Qc))) [] [].
+Theorem C09_seam_width_needed_refuted :
+  let S := mkSt 0 (TV QcF seam_scene (fE seam_state)) (TV QcF seam_scene (fH seam_state)) [] [] in
+  tiles QcF seam_scene 2 1 1 S seam_state /\
+  ~ tiles QcF seam_scene 2 1 1 (forward QcF (Tscene QcF seam_scene 2 1 1) S) (forward QcF seam_scene seam_state).
+Proof.
+  split; [split; [apply veqB_refl | split; [apply veqB_refl | reflexivity]]|].
+  intros (HE & _).
+  assert (Lx : (2 < nx QcF (Tscene QcF seam_scene 2 1 1))%nat) by (apply Nat.ltb_lt; vm_compute; reflexivity).
+  assert (Ly : (0 < ny QcF (Tscene QcF seam_scene 2 1 1))%nat) by (apply Nat.ltb_lt; vm_compute; reflexivity).
+  assert (Lz : (0 < nz QcF (Tscene QcF seam_scene 2 1 1))%nat) by (apply Nat.ltb_lt; vm_compute; reflexivity).
+  destruct (HE 2%nat O O Lx Ly Lz) as (_ & ey & _).
+  apply (f_equal (fun z => Qden (this (fst z)))) in ey. vm_compute in ey. discriminate.
+Qed.
+Print Assumptions C09_seam_width_needed_refuted.
